@@ -101,18 +101,18 @@ type Blocked struct {
 
 // Stats are reach probes counted by the runtime itself.
 type Stats struct {
-	SelectMultiReady   int // a select was executed with >= 2 ready cases
-	SelectNonFirst     int // ... and a case other than the first ready one was taken
-	ErrAndOtherReady   int // ... and one of the ready cases receives from a chan error
-	SenderBlockedFull  int // a send was declared on a full buffered channel
-	Preemptions        int // scheduler chose another goroutine although the current one was enabled
-	MapPermuted        int // a map iteration order other than sorted was produced
-	PartnerChoices     int // a rendezvous had >= 2 possible partners
-	MaxEnabled         int
-	Spawned            int
-	WorkerIdleAtClose  int
-	DecisionsNonZero   int
-	RecvOnClosed       int
+	SelectMultiReady  int // a select was executed with >= 2 ready cases
+	SelectNonFirst    int // ... and a case other than the first ready one was taken
+	ErrAndOtherReady  int // ... and one of the ready cases receives from a chan error
+	SenderBlockedFull int // a send was declared on a full buffered channel
+	Preemptions       int // scheduler chose another goroutine although the current one was enabled
+	MapPermuted       int // a map iteration order other than sorted was produced
+	PartnerChoices    int // a rendezvous had >= 2 possible partners
+	MaxEnabled        int
+	Spawned           int
+	WorkerIdleAtClose int
+	DecisionsNonZero  int
+	RecvOnClosed      int
 }
 
 // Outcome is the result of one simulated run.
@@ -196,33 +196,33 @@ const (
 
 // Sim is the state of one run.
 type Sim struct {
-	cfg       Config
-	gs        []*G
-	cur       *G
-	root      *G
-	rng       uint64
-	steps     int
-	maxSteps  int
-	killed    bool
-	abort     *Outcome
-	aborted   bool
-	trace     uint64
-	dec       []int32
-	arity     []int32
-	rpos      int
-	diverged  bool
-	stats     Stats
-	cand      []*G
-	pbuf      []partner
-	epoch     int64
-	changeAt  [8]int
-	nchange   int
-	lowPrio   int64
-	now       int64
-	nchan     int
-	chans     []*chanCore
-	implicit  bool
-	overflow  bool
+	cfg      Config
+	gs       []*G
+	cur      *G
+	root     *G
+	rng      uint64
+	steps    int
+	maxSteps int
+	killed   bool
+	abort    *Outcome
+	aborted  bool
+	trace    uint64
+	dec      []int32
+	arity    []int32
+	rpos     int
+	diverged bool
+	stats    Stats
+	cand     []*G
+	pbuf     []partner
+	epoch    int64
+	changeAt [8]int
+	nchange  int
+	lowPrio  int64
+	now      int64
+	nchan    int
+	chans    []*chanCore
+	implicit bool
+	overflow bool
 }
 
 type partner struct {
